@@ -7,14 +7,26 @@ Theorem C14_grow_exact : forall a newMax, 0 < maxPages a -> a_end (data a) <= ma
 Proof. exact grow_exact. Qed.
 Print Assumptions C14_grow_exact.
 
-(* a former overflow area is never handed out by the data allocator after the limit was raised (D12) *)
+(* a former overflow area (pages behind the data area) is never handed out by the data allocator after the limit
+   was raised (D12), and the data end marker never moves back (D20: the first repair of D12 did move it back on a
+   file that extends beyond the new limit) *)
 Theorem C14_grow_skips_overflow_area : forall oldMax newMax dataEnd metaEnd id,
-  0 < oldMax -> dataEnd <= oldMax -> oldMax < metaEnd -> (newMax = 0 \/ oldMax < newMax) ->
-  oldMax <= id < metaEnd ->
+  0 < oldMax -> oldMax < metaEnd -> (newMax = 0 \/ oldMax < newMax) ->
+  dataEnd <= id < metaEnd ->
   let e := grow_data_end oldMax newMax dataEnd metaEnd in
   ~ (e <= id /\ (newMax = 0 \/ id < newMax)).
 Proof. exact grow_skips_overflow_area. Qed.
 Print Assumptions C14_grow_skips_overflow_area.
+
+Theorem C14_grow_never_lowers_data_end : forall oldMax newMax dataEnd metaEnd,
+  dataEnd <= grow_data_end oldMax newMax dataEnd metaEnd.
+Proof. exact grow_never_lowers. Qed.
+Print Assumptions C14_grow_never_lowers_data_end.
+
+Theorem C14_first_repair_refuted : exists oldMax newMax dataEnd metaEnd,
+  0 < oldMax /\ oldMax < newMax /\ dataEnd <= metaEnd /\ grow_data_end_v1 oldMax newMax dataEnd metaEnd < dataEnd.
+Proof. exact grow_v1_lowers_refuted. Qed.
+Print Assumptions C14_first_repair_refuted.
 
 (* ---- after shrinking: the file extends beyond its limit ---- *)
 (* what a commit gives back to the file system is exactly a run of free pages at the end of the file and at or
